@@ -38,6 +38,10 @@ func allocRequests(base int) []wReq {
 		for _, lim := range []float64{0, 2} {
 			for _, mem := range []int64{0, 30, 60} {
 				out = append(out, wReq{Bind: true, CPU: cpu, CPULimit: cpu * lim, Mem: mem})
+				if mem > 0 && lim == 0 {
+					// a memory limit above the request: admission is by request, what is recorded must still fit
+					out = append(out, wReq{Bind: true, CPU: cpu, Mem: mem, MemLimit: 2 * mem})
+				}
 			}
 		}
 	}
@@ -50,7 +54,7 @@ func allocRequests(base int) []wReq {
 }
 
 func allocEnum(c *vcore.Ctx, prop string) {
-	c.SetRule("every valid node state (k cores with capacity {1,.5} core and usage {0,.3,.5,1} core, memory usage {0,40,80}/100, optional 2-NUMA split with NUMA memory {(50,50),(80,20)} usage {0,30}) x request (bound cpu {.3,.5,1,1.2,1.5,2} x limit {0,2x} x memory {0,30,60}; unbound cpu {0,.5,1,1.5,2,2.5,3.5,5} x memory) x share base {100,10} x max-share {-1,1,2}; " +
+	c.SetRule("every valid node state (k cores with capacity {1,.5} core and usage {0,.3,.5,1} core, memory usage {0,40,80}/100, optional 2-NUMA split with NUMA memory {(50,50),(80,20)} usage {0,30}) x request (bound cpu {.3,.5,1,1.2,1.5,2} x limit {0,2x} x memory {0,30,60} (also with a memory limit of twice the request); unbound cpu {0,.5,1,1.5,2,2.5,3.5,5} x memory) x share base {100,10} x max-share {-1,1,2}; " +
 		"non-trivial = the node offers capacity >= 1 for the request; distinct by (config,state,request)")
 	envs := penvCache{}
 	defer envs.close()
